@@ -151,6 +151,108 @@ def splice_headers(P, rep, prefix):
     _splice_headers(P, rep, prefix, "builder::pass0::pass0_internal", "splicing a macro expansion", True)
     _splice_headers(P, rep, prefix + "|pass0-entry", "builder::pass0::build_pass_0", "handing the parsed segments to pass 0", False)
     plain_items(P, rep, prefix)
+    if prefix.startswith("C09"):
+        closing_segment(P, rep, prefix)
+        every_segment_type(P, rep, prefix)
+
+
+def every_segment_type(P, rep, prefix):
+    """a macro call is expanded wherever it stands: pass 0 walks every parsed segment and every segment of an expansion, whatever its
+    type (the walk lies on every round of the two segment loops), and a body is parsed starting in the segment type of its call"""
+    import rules_C16
+    for key, what in (("builder::pass0::build_pass_0", "parsed"), ("builder::pass0::pass0_internal", "expanded")):
+        b = P.body.get(key)
+        if b is None:
+            rep.unprovable("%s|every-segment-type|%s" % (prefix, what), "%s not found" % key)
+            continue
+        idom = G.dominators(b)
+        rec = [bb for bb, t, n, tg in P.call_sites(key) if "builder::pass0::pass0_internal" in tg]
+        ok = False
+        for head, nodes in rules_C16.natural_loops(b).items():
+            inl = [x for x in rec if x in nodes]
+            if not inl:
+                continue
+            # the loop over segments (its iterator yields Segment values), not the item loop that merely contains it
+            nexts = [x for x in nodes if b["blocks"][x]["term"]["k"] == "call" and MU.callee_names(b["blocks"][x]["term"])[1].endswith("::next") and
+                     "Segment" in MU.callee_names(b["blocks"][x]["term"])[0] and "CodePoint" not in MU.callee_names(b["blocks"][x]["term"])[0]]
+            if not nexts:
+                continue
+            srcs = [s_ for s_, h_ in G.back_edges(b) if h_ == head]
+            if any(all(G.dominates(idom, x, s_) for s_ in srcs) for x in inl):
+                ok = True
+        rep.ob("%s|every-segment-type|%s" % (prefix, what), ok,
+               "every %s segment is walked for macro calls, whatever its type" % what if ok else
+               "not every %s segment is walked for macro calls (the walk is skipped for some segment types): a macro called while .eseg or .dseg is selected is never expanded" % what)
+    k = "builder::pass0::macro_expand"
+    b = P.body.get(k)
+    if b is not None:
+        fn = [f["name"] for f in P.lib.adts["parser::Segment"]["variants"][0]["fields"]]
+        okt = False
+        for bl in b["blocks"]:
+            for st in bl["stmts"]:
+                if st["k"] == "assign" and st["rv"]["k"] == "agg" and st["rv"]["kind"].get("path") == "parser::Segment":
+                    o = st["rv"]["ops"][fn.index("t")]
+                    locs, consts, calls, places = MU.backward_slice(b, [o])
+                    okt = any(MU.callee_names(c)[1].endswith("Pass0Context::last_segment") for c in calls)
+        rep.ob("%s|every-segment-type|body-start" % prefix, okt,
+               "a macro body is parsed starting in the segment type its call stands in" if okt else
+               "a macro body is always parsed as if it stood in one fixed segment type: data a macro emits when called from .eseg lands in flash")
+
+
+def closing_segment(P, rep, prefix):
+    """Which segments of a macro body's expansion are handed back: an empty one must not be dropped for being empty alone — the one a
+    segment directive at the end of the body opens is what the caller's following lines go to.  So wherever the family of macro_expand
+    decides by Segment::is_empty, that decision also looks at the position of the segment (a length or index comparison)."""
+    fam = [k for k in P.body if k == "builder::pass0::macro_expand" or k.startswith("builder::pass0::macro_expand::{closure")]
+    found = 0
+    bad = []
+    for k in fam:
+        b = P.body[k]
+        for bb, t, name, tg in P.call_sites(k):
+            if "parser::Segment::is_empty" not in tg:
+                continue
+            found += 1
+            # everything the emptiness flows into (copies, !, |, &) up to a switch or the closure's return value
+            tainted = {t["dest"]["local"]}
+            grew = True
+            while grew:
+                grew = False
+                for bl in b["blocks"]:
+                    for st in bl["stmts"]:
+                        if st["k"] != "assign" or st["place"]["proj"]:
+                            continue
+                        rv = st["rv"]
+                        ops = [rv.get("op"), rv.get("o"), rv.get("l"), rv.get("r")]
+                        if any(o and MU.op_place(o) and MU.op_place(o)["local"] in tainted for o in ops) and st["place"]["local"] not in tainted:
+                            tainted.add(st["place"]["local"])
+                            grew = True
+            deciders = []
+            for bi, bl in enumerate(b["blocks"]):
+                tt = bl["term"]
+                if tt["k"] == "switch" and MU.op_place(tt["discr"]) and MU.op_place(tt["discr"])["local"] in tainted:
+                    deciders.append(tt["discr"])
+            if 0 in tainted:
+                deciders.append({"copy": {"local": 0, "proj": []}})
+            positional = False
+            for d in deciders:
+                locs, consts, calls, places = MU.backward_slice(b, [d])
+                if any(re.search(r"::len$", MU.callee_names(c)[1]) for c in calls):
+                    positional = True
+                # short-circuit `a && b`: the position test may sit on the other side of a branch that joins into the decision
+            if not positional:
+                # look at the whole function: an integer equality with a length that reaches the same push / return
+                for bl in b["blocks"]:
+                    for st in bl["stmts"]:
+                        if st["k"] == "assign" and st["rv"]["k"] == "bin" and st["rv"]["op"] in ("Eq", "Ne", "Lt", "Le", "Gt", "Ge"):
+                            locs, consts, calls, places = MU.backward_slice(b, [st["rv"]["l"], st["rv"]["r"]])
+                            if any(re.search(r"::len$", MU.callee_names(c)[1]) for c in calls) and any(re.search(r"Enumerate|enumerate", MU.callee_names(c)[1]) for c in calls):
+                                positional = True
+            if not positional:
+                bad.append(k)
+    rep.ob("%s|closing-segment" % prefix, found >= 1 and not bad,
+           "where an expansion's segments are kept or dropped by emptiness, the segment's position is looked at as well: the empty segment that a closing segment directive opens is handed back" if found >= 1 and not bad else
+           ("segments of a macro expansion are dropped for being empty alone (%s): after a body that ends with `.cseg` (a macro that declares a variable in .dseg and switches back) the caller's following lines go to the wrong segment" % bad[0].split("pass0::")[-1]
+            if bad else "no emptiness decision found in macro_expand"))
 
 
 def plain_items(P, rep, prefix):
@@ -278,7 +380,7 @@ def _splice_headers(P, rep, prefix, key, doing, with_decision):
                "whether the first expanded segment continues the current output segment is decided by comparing its address and type with the output's last segment" if ok else
                "the first expanded segment's address/type are not compared with the output's last segment (comparisons found: %s): after a macro that left another segment selected or moved the origin, the next expansion lands in the wrong place" % sorted(got),
                loc=loc_of(b["blocks"][bb]["tspan"]))
-    rep.floor("segments opened while %s" % doing, len(adds), 2)
+    rep.floor("segments opened while %s" % doing, len(adds), 2 if with_decision else 1)
 
 
 def run(tier):
